@@ -19,7 +19,11 @@ def run(tier, replay=None):
                 rp = c.replay_file("derive_rejects_supported_declaration%s.rs" % tag, open(src).read())
                 c.violation("derive-rejects", "the derive itself rejects a declaration of the supported grammar (docs=%s): %s" % (docs, macro[0]["message"][:300]), rp)
                 continue
-            raise vlib.ToolError("a generated derive program does not compile (grammar/renderer problem, or the derive rejects a supported definition: that is C13's finding): %s\n%s" % (src, "\n".join(x["rendered"] for x in diags[:2])))
+            # the derive EMITTED an implementation that rustc rejects, for a declaration of the supported grammar (every
+            # program of this grammar compiles on a tree where the property holds): nothing is reported for that type
+            rp = c.replay_file("derive_emits_code_that_does_not_compile%s.rs" % tag, open(src).read())
+            c.violation("derive-emits-invalid", "the implementation the derive emits for a declaration of the supported grammar does not compile (docs=%s): %s" % (docs, (diags[0]["message"] or "")[:300] if diags else "?"), rp)
+            continue
         DC.validate_all(c, "C09", tr, tag)
     c.cov["exhaustive"] = False
     c.cov["rule"] = "declarations = TLC-enumerated plans (4 shapes x every set of <=%d of the grammar features of specs/MC_Derive.tla: generics, skipped parameters, lifetimes, docs with 0/1/3 leading spaces, rename, codec skip/compact, PhantomData, self reference, nested built-ins, raw identifiers, capture_docs always/never/default in mixed case, module nesting, replace_segment incl. overlapping keys and the type's own identifier, skipped variants, codec(index), discriminants, const generics, doc attributes in both forms, attributes combined and split in both orders, encoded_as over path and non-path types, types through macro_rules fragments, a parameter instantiated with PhantomData, raw-identifier modules and type names, #[scale_info(crate = <a re-export path>)], the kinds of container attributes and the attributes of a member in the opposite order / before the doc lines, discriminants written as expressions) + seeded random declarations; each compiled with the docs feature off and on; the reported Type compared by TLC with Derive.Meta (path, parameters Some/None in the compile-time AND the portable form, member order, names, type identities via TypeId, whitespace-free type names with 'static lifetimes, variant names, docs)" % (4 if tier == "thorough" else 2)
